@@ -56,6 +56,11 @@ def run_ceiling(case, ctx, mon):
                 mon.count(f"ceiling_steps_via_add_ngram:{fam}")
             else:
                 mon.api(s.add, key, 1)
+        elif how == "ngram-run":
+            # the key is a run of one byte; a longer run of that byte is a record whose v + 1 windows are all the key
+            mon.api(s.add_ngram, key[:1] * (len(key) + v), len(key))
+            v = v + 1
+            mon.count(f"ceiling_steps_via_add_ngram_of_a_byte_run:{fam}")
         elif how == "selfmerge":
             # both operands are the same memory: the count doubles, saturating
             v = true
@@ -124,6 +129,36 @@ def run_monotone(case, ctx, mon):
         mon.tick("no-add-or-merge-lowers-an-estimate", len(universe))
     mon.count(f"monotone_histories:{kind}")
     mon.nontrivial(at_ceiling)
+
+
+def run_bigmerge(case, ctx, mon):
+    """Tables of several thousand cells (where chunked / blocked merge kernels have heads and tails), nearly every cell within 3 of
+    the ceiling: merging a sketch that holds a little of the same keys may only raise estimates, and saturated keys stay saturated."""
+    w, d = case["width"], case["depth"]
+    cfg = {"kind": "linear", "width": w, "depth": d}
+    rng = np.random.default_rng(case["seed"])
+    a, b = state.make(cfg), state.make(cfg)
+    keys = list({bytes(rng.integers(0, 256, 5, dtype=np.uint8)) for _ in range(3 * w)})
+    for k in keys:
+        a.add(k, CAP - int(rng.integers(0, 4)))
+        v = int(rng.integers(0, 6))
+        if v:
+            b.add(k, v)
+    before = [int(a.query(k)) for k in keys]
+    before_b = [int(b.query(k)) for k in keys]
+    mon.api(a.merge, b)
+    lowered = 0
+    for k, x, y in zip(keys, before, before_b):
+        got = int(a.query(k))
+        if got < x or got < y:
+            lowered += 1
+            mon.check(False, "no-add-or-merge-lowers-an-estimate", kind="linear", key=hx(k), before=x, other=y, after=got, cfg=cfg, step="merge of two big tables")
+        if x == CAP and got != CAP:
+            mon.check(False, "stays-at-ceiling-after-saturation", family="linear", got=got, cfg=cfg, step="merge of two big tables")
+    mon.tick("no-add-or-merge-lowers-an-estimate", len(keys))
+    mon.count("big_table_merges")
+    mon.count("big_table_keys", len(keys))
+    mon.nontrivial(CAP in before)
 
 
 def run_row_asymmetric(case, ctx, mon):
@@ -248,6 +283,15 @@ def gen_cases(ctx):
                           "steps": [["selfmerge", 0], ["add", 1], ["selfmerge", 0], ["selfmerge", 0]]})
         cases.append({"type": "ceiling", "family": fam, "start": 1, "key": hx(rand_key(rng, 1, 8)), "width": 3, "depth": 2,
                       "steps": [["selfmerge-run", 0], ["merge-into-fresh", 0], ["add", 1], ["merge", 5]]})
+        # keys that are runs of one byte, pushed over the ceiling by add_ngram of a longer run (every window is the same n-gram)
+        for n in (1, 2, 3, 4, 8):
+            for off in (0, 1, 2, 5, 9, 40):
+                cases.append({"type": "ceiling", "family": fam, "start": CAP - off, "key": hx(bytes([int(rng.integers(0, 256))]) * n), "width": 64,
+                              "depth": int(rng.integers(1, 4)),
+                              "steps": [["ngram-run", pick(rng, [0, 1, 2])], ["ngram-run", 2 * n + int(rng.integers(0, 4))], ["ngram-run", 3 * n + 30], ["add", 1],
+                                        ["ngram-run", 2 * n]]})
+    for shape in ((1001, 5), (997, 7), (4099, 1), (2050, 2), (1000, 8), (64 * 65 + 1, 1), (4097, 3)) + ((int(rng.integers(1025, 3000)), int(rng.integers(2, 8))),):
+        cases.append({"type": "bigmerge", "width": shape[0], "depth": shape[1], "seed": int(rng.integers(0, 2**31))})
     for r in range(4):
         for vals in ((2**31, 2**31 - 10, 100), (CAP // 2, 2**31 - 10, 12), (2**31 - 10, 2**31 - 10, 2**31), (CAP - 5, 3, 7), (2**30, 2**31, 2**30 + 5)):
             for d in (r + 1, 4):
@@ -304,7 +348,7 @@ def gen_cases(ctx):
 
 
 def run_case(case, ctx, mon):
-    {"ceiling": run_ceiling, "monotone": run_monotone, "logcfg": run_logcfg, "rowasym": run_row_asymmetric}[case["type"]](case, ctx, mon)
+    {"ceiling": run_ceiling, "monotone": run_monotone, "logcfg": run_logcfg, "rowasym": run_row_asymmetric, "bigmerge": run_bigmerge}[case["type"]](case, ctx, mon)
 
 
 def run(ctx, mon):
@@ -316,6 +360,8 @@ def replay(case, ctx, mon):
 
 
 def floors(mon, ctx):
+    mon.floor("merges of nearly saturated tables of >= 4096 cells", mon.counters["big_table_merges"], 8)
+    mon.floor("ceiling steps by add_ngram of a byte run (linear)", mon.counters["ceiling_steps_via_add_ngram_of_a_byte_run:linear"], 60)
     for fam in ("linear", "hh"):
         mon.floor(f"landings around the ceiling ({fam})", len(mon.classes[f"landing:{fam}"]), 7)
         mon.floor(f"steps after saturation ({fam})", mon.counters[f"steps_after_saturation:{fam}"], 50)
